@@ -726,6 +726,8 @@ func (c *Ctx) sepOfIndexCall(call *ssa.Call) (int64, bool) {
 		if s, ok := constStr(sv); ok && len(s) == 1 {
 			return int64(s[0]), true
 		}
+	case "strings.Cut", "bytes.Cut":
+		return c.sepByte(call.Call.Args[1])
 	}
 	return 0, false
 }
